@@ -2,11 +2,11 @@ SPECIFICATION Spec
 CONSTANTS
   Senders = {"o1", "a1", "b1"}
   EchoSenders = {"o1"}
-  MsgKeys = {"o1", "o2", "a1", "a2", "b1"}
+  MsgKeys = {"o1", "a1", "b1", "k"}
   MaxDec = 2
   ManualMax = 2
-  Combos <- CombosQ4
-  MaxHist = 3
+  Combos <- CombosAll
+  MaxHist = 2
 INVARIANTS TypeOK NoHeldFromAuthenticated HeldInScope OneDirectionPerSender ForeignPairsUntouched
 PROPERTIES StepOK
 VIEW View
